@@ -71,8 +71,42 @@ fn obscure_unsigned_parts(c: &mut Ctx, e: &Envelope) -> Envelope {
     e.elide_removing_set_with_action(&t, &act)
 }
 
+/// does some plain 'signed' assertion of `env` hold a signature that the dependency itself (bc-components, outside /repo)
+/// accepts for `pk` over the subject digest?
+fn raw_valid(env: &Envelope, pk: &SigningPublicKey) -> bool {
+    let d = env.subject().digest().into_owned();
+    env.assertions_with_predicate(known_values::SIGNED).iter().any(|a| a.subject().as_object().and_then(|o| o.extract_subject::<bc_components::Signature>().ok()).map(|sg| bc_components::Verifier::verify(pk, &sg, d.data())).unwrap_or(false))
+}
+
+/// SSH ECDSA keys from a seeded generator (key generation and RFC 6979 signing are deterministic, so every run sees the same
+/// instances): a signature just made must verify under its own public key
+fn c09_ssh_ecdsa(c: &mut Ctx, b: &Budget) {
+    let n = if b.thorough { 1200u64 } else { 160 };
+    c.begin("ssh-ecdsa-seeded");
+    let e = Envelope::new("Hello.");
+    for (name, scheme) in [("ssh-ecdsa-p256", SignatureScheme::SshEcdsaP256), ("ssh-ecdsa-p384", SignatureScheme::SshEcdsaP384)] {
+        for seed in 0..n {
+            let mut rng = bc_rand::SeededRandomNumberGenerator::new([seed, 1, 2, 3]);
+            let (sk, pk) = match scheme.keypair_using(&mut rng, "") { Ok(x) => x, Err(_) => continue };
+            let opts = Some(SigningOptions::Ssh { namespace: "test".into(), hash_alg: ssh_key_hash() });
+            let signed = match guarded(|| e.add_signature_opt(&sk, opts.clone(), None)) { Ok(x) => x, Err(site) => { c.check("no-panic", false, "signing-panic", || site); continue; } };
+            c.count(&format!("scheme:{}", name));
+            let got = guarded(|| signed.has_signature_from(&pk));
+            let ok = matches!(got, Ok(Ok(true)));
+            if !ok {
+                // whose fault? ask the dependency directly about the very signature object
+                let dep_ok = raw_valid(&signed, &pk);
+                let key = if dep_ok { "signature-lost" } else { "dependency-rejects-own-ssh-ecdsa-signature" };
+                c.check("own-signature-verifies", false, key, || format!("{} key from SeededRandomNumberGenerator([{},1,2,3]), namespace \"test\", SHA-256, subject \"Hello.\": the signature just made does not verify under its own public key (bc-components' Verifier::verify on the same signature and digest says {})", name, seed, dep_ok));
+            } else { c.check("own-signature-verifies", true, "signature-lost", || String::new()); }
+        }
+    }
+    c.end();
+}
+
 /// C09 - signatures
 pub fn c09(c: &mut Ctx, b: &Budget) {
+    c09_ssh_ecdsa(c, b);
     let sg = signers(b.thorough);
     let rounds = if b.thorough { b.scenarios / 10 } else { b.scenarios / 5 };
     for i in 0..rounds.max(10) {
@@ -90,7 +124,7 @@ pub fn c09(c: &mut Ctx, b: &Budget) {
                 let want = chosen.contains(&j);
                 let got = guarded(|| env.has_signature_from(&s.pk));
                 match got {
-                    Ok(Ok(v)) => c.check("verifies-iff-signed", v == want, if want { "signature-lost" } else { "foreign-key-accepted" }, || format!("{}: key {} expected {} got {} on {}", what, s.name, want, v, shape(env))),
+                    Ok(Ok(v)) => c.check("verifies-iff-signed", v == want, if want { if s.name.starts_with("ssh-ecdsa") && !raw_valid(env, &s.pk) { "dependency-rejects-own-ssh-ecdsa-signature" } else { "signature-lost" } } else { "foreign-key-accepted" }, || format!("{}: key {} expected {} got {} on {}", what, s.name, want, v, shape(env))),
                     Ok(Err(x)) => c.check("verifies-iff-signed", false, "verification-error", || format!("{}: key {} expected {} got Err({}) on {}", what, s.name, want, x, shape(env))),
                     Err(site) => c.check("no-panic", false, "verification-panic", || site),
                 }
